@@ -172,6 +172,36 @@ func (p *Public) WriteTo(w io.Writer) (total int64, err error) {
 	return
 }
 
+// Validate returns an error if the config is absent or lacks a field that every
+// protocol run dereferences, or if its threshold does not fit its party table.
+// It does not re-verify the cryptographic consistency of the material.
+func (c *Config) Validate() error {
+	if c == nil {
+		return errors.New("config: is nil")
+	}
+	if c.Group == nil || c.ECDSA == nil || c.ElGamal == nil || c.Paillier == nil || len(c.Public) == 0 {
+		return errors.New("config: missing fields")
+	}
+	if c.ID == "" {
+		return errors.New("config: empty ID")
+	}
+	if c.ECDSA.IsZero() || c.ElGamal.IsZero() {
+		return errors.New("config: ECDSA or ElGamal secret key is zero")
+	}
+	if !ValidThreshold(c.Threshold, len(c.Public)) {
+		return fmt.Errorf("config: threshold %d is invalid", c.Threshold)
+	}
+	if _, ok := c.Public[c.ID]; !ok {
+		return errors.New("config: no public data for this party")
+	}
+	for id, p := range c.Public {
+		if p == nil || p.ECDSA == nil || p.ElGamal == nil || p.Paillier == nil || p.Pedersen == nil {
+			return fmt.Errorf("config: party %s: missing public data", id)
+		}
+	}
+	return nil
+}
+
 // CanSign returns true if the given _sorted_ list of signers is
 // a valid subset of the original parties of size > t,
 // and includes self.
